@@ -147,6 +147,11 @@ func atoms(joined bool) []natom {
 	for _, op := range []string{"=", "<>", "<=>"} {
 		add(Cmp{op, a, knull})
 	}
+	// literal on the LEFT of the comparison (range construction mirrors the operator)
+	for _, op := range cmpOps {
+		add(Cmp{op, k(1), a})
+		add(Cmp{op, k(2), b})
+	}
 	add(IsNull{a, false})
 	add(IsNull{a, true})
 	add(IsNull{b, false})
@@ -195,6 +200,8 @@ func repAtoms(joined bool) []natom {
 		Between{a, k(1), k(2), false},
 		Cmp{"=", Func{"COALESCE", []Expr{a, b}}, k(1)},
 		Cmp{"<>", b, k(2)},
+		Cmp{">=", k(1), a},
+		Cmp{"<", k(1), b},
 	}
 	if joined {
 		es = append(es, Cmp{"=", a, c("u", "b")}, IsNull{c("u", "a"), false})
